@@ -41,7 +41,7 @@ from ref import blockorder as B
 
 PROPERTY = "C16"
 LEVEL = "exploration"
-RULE = ("1: every boolean n x n matrix (n<=4; thorough + five completely enumerated 5x5 families) with a "
+RULE = ("1: every boolean n x n matrix (n<=4; + 584 5x5 matrices already in block lower-triangular order; thorough + five completely enumerated 5x5 families) with a "
         "perfect matching x id labelings {default, reversed, non-contiguous shuffled}; distinct non-trivial = "
         "distinct matrix with a perfect matching (labelings counted as evaluations only). 2: every labelled "
         "zero-shift dependency digraph over 4 equations x equation orders, every digraph over 3 equations x 6 "
@@ -294,6 +294,46 @@ def family_block_triangular():
                     both = np.stack([a[np.ix_(p, p)] for p in perms])
                     out.append(np.unique(_codes(np.concatenate((r_only, c_only, both)))))
     return np.unique(np.concatenate(out)), n_patterns
+
+
+def family_natural_block_triangular():
+    """5 x 5 matrices that are ALREADY in lower block-triangular order (no permutation applied): every base pattern
+    of family_block_triangular, and for the two-block shapes 2+3 and 3+2 every below-diagonal block C (all 2^6) with
+    full / cyclic diagonal blocks.  Small enough for the quick tier; it is the shape in which the reordering step
+    has to move rows across block boundaries of a matrix that was handed over in good order."""
+    out = []
+    for comp in _compositions(5, (1, 2, 3)):
+        k = len(comp)
+        if k == 5:
+            continue
+        starts = np.concatenate(([0], np.cumsum(comp)))
+        diag_options = []
+        for s_ in comp:
+            opts = [np.ones((s_, s_), dtype=bool)]
+            if s_ == 3:
+                opts.append(np.eye(3, dtype=bool) | np.roll(np.eye(3, dtype=bool), 1, axis=1))
+            diag_options.append(opts)
+        pairs = [(i, j) for i in range(k) for j in range(i)]
+        for diag in itertools.product(*diag_options):
+            base = np.zeros((5, 5), dtype=bool)
+            for b, d in enumerate(diag):
+                base[starts[b]:starts[b + 1], starts[b]:starts[b + 1]] = d
+            for links in range(1 << len(pairs)):
+                a = base.copy()
+                for t, (i, j) in enumerate(pairs):
+                    if (links >> t) & 1:
+                        a[starts[i]:starts[i + 1], starts[j]:starts[j + 1]] = True
+                out.append(a)
+            if k == 2:
+                r0, c1 = starts[1], starts[1]
+                cells = [(r, c) for r in range(r0, 5) for c in range(0, c1)]
+                for bits in range(1 << len(cells)):
+                    a = base.copy()
+                    for t, (r, c) in enumerate(cells):
+                        if (bits >> t) & 1:
+                            a[r, c] = True
+                    out.append(a)
+    return np.unique(_codes(np.stack(out)))
 
 
 def family_permuted_diagonal(max_extra=3):
@@ -740,6 +780,12 @@ def run(ctx, total, info):
     shards += [("shard_steady", (3, lo, lo + 32)) for lo in range(0, 512, 32)]
     shards += [("shard_steady", (2, 0, 16)), ("shard_steady", (1, 0, 2)), ("shard_seq_small", 0)]
     engine.run_shards(__name__, "shard_dispatch", shards, ctx, total)
+    # ---- Part 1, both tiers: 5 x 5 matrices already in block lower-triangular order ----------------------------
+    nat = family_natural_block_triangular()
+    done, n = engine.run_shards(__name__, "shard_blaze_list", [(5, [int(x) for x in ch], LABELINGS, "natural", True) for ch in _chunks(nat, 150)],
+                                ctx, total, deadline=deadline)
+    if done < n:
+        exhaustive = False
     # ---- Part 1, thorough: 5 x 5 families ---------------------------------------------------------------------
     fam_info = {}
     if not ctx.quick:
@@ -769,6 +815,7 @@ def run(ctx, total, info):
     c = total.counters
     info["space"] = {
         "blaze_n_le_4": "all 2^(n*n) matrices, n=1..4; 3 labelings for those with a perfect matching",
+        "blaze_n5_natural_order_block_triangular": {"distinct_matrices": int(nat.size), "labelings": list(LABELINGS)},
         "blaze_n5_families": fam_info or "thorough only",
         "sequentialize": {"n4_digraphs": 4096, "n4_orders": len(orders4), "n3_digraphs": 64, "n3_orders": 6,
                           "n3_form_vectors": 27, "n3_selfref_masks": 7, "n3_duplicate_lhs": 1},
@@ -781,6 +828,7 @@ def run(ctx, total, info):
     info["floors"] = {
         "matrices_with_perfect_matching": (c["matrices_with_perfect_matching"], 30000 if ctx.quick else 700000),
         "blaze_block_size_structures": (len(total.classes.get("block_sizes", ())), 12 if ctx.quick else 20),
+        "blaze_n5_matrices": (c["n5_matrices"], 500),
         "blaze_cases_with_a_simultaneous_block": (c["cases_with_a_simultaneous_block"], 30000),
         "seq_acyclic_reordered": (c["acyclic_reordered"], 4000 if ctx.quick else 8000),
         "seq_acyclic_already_sequential": (c["acyclic_already_sequential"], 1500),
